@@ -131,7 +131,12 @@ class World(EventDispatcher):
         # Manage replaced components (before updating the type index,
         # as the removal may free the index entry)
         if component_type in self._entities.get(entity, {}):
+            dead = entity in self._dead_entities
             self.remove_component(entity, component_type)
+            # Replacing its only component does not cancel the pending
+            # deferred deletion of an entity
+            if dead:
+                self._dead_entities.add(entity)
 
         if component_type not in self._components:
             self._components[component_type] = set()
